@@ -198,7 +198,19 @@ static void write_stats(const char *result) {
 
 // ---------------------------------------------------------------- case lifecycle
 static int g_watchdog = 60;   // seconds a single case may run before it is declared hung (cases take milliseconds)
-void begin_case(const CaseFile &c) { g_cur = c.serialize(); g_evals++; alarm(g_watchdog); }
+// VERIF_KEEP_DIR / VERIF_KEEP_N: save the first N generated cases of this worker as case files (the driver re-runs them through an
+// uninstrumented build under valgrind, which sees what ASan cannot: uses of uninitialised memory)
+static void keep_case(const CaseFile &c) {
+    static long kept = 0; static long want = -1; static std::string dir;
+    if (want < 0) { const char *d = getenv("VERIF_KEEP_DIR"), *n = getenv("VERIF_KEEP_N"); want = (d && n) ? atol(n) : 0; if (d) dir = d; }
+    if (kept >= want || g_failed) return;
+    // spread the kept cases over the run (rapidcheck's size grows with the case number): every (cases / want)-th case
+    long stride = g_cases > want && want > 0 ? g_cases / want : 1;
+    if (g_evals % stride != 0) return;
+    CaseFile d = c; d.set("_engine", g_engine);
+    d.save(dir + "/keep-" + g_engine + "-" + g_wid + "-" + std::to_string(kept++) + ".case");
+}
+void begin_case(const CaseFile &c) { g_cur = c.serialize(); g_evals++; keep_case(c); alarm(g_watchdog); }
 void record_fail(const CaseFile &c, const std::string &msg) {
     CaseFile d = c; d.set("_engine", g_engine); d.set("_msg", msg);
     d.save(g_out + "/fail-" + g_engine + "-" + g_wid + ".case");
